@@ -20,6 +20,9 @@ def gen_run(tier, fault=False):
         o = draw(wass.option_specs(max_iter=12 if tier == "quick" else 40))
         case = {"grid": g, "mass": draw(wass.mass_specs()), "opt": o,
                 "weight": draw(wass.weight_specs())}
+        # small / large total mass (power-of-two scale) and the library's default linear tolerances
+        case["mass"]["amp_exp"] = draw(st.sampled_from([0, 0, 0, -14, -24, 10]))
+        o["lso"] = draw(st.sampled_from(["tight", "tight", "default"]))
         if fault:
             o["tol"] = draw(st.sampled_from([None, 1e-12, 1e-12, 1e-3]))
             case["fault_point"] = draw(st.sampled_from(["linear_solve", "linear_solve", "face_weight",
@@ -29,6 +32,8 @@ def gen_run(tier, fault=False):
                 o["aa_restart"] = draw(st.sampled_from([None, 3]))
             hi = o["num_iter"] * (3 if case["fault_point"] in ("face_weight", "dissipation") else 1)
             case["fault_at"] = draw(st.integers(1, hi))
+            case["fault_exc"] = draw(st.sampled_from(["runtime", "runtime", "memory", "custom", "floating",
+                                                      "linalg", "type"]))
         return case
 
     return strat()
@@ -55,7 +60,7 @@ def _tags(case, a, b):
             "aa": bool(o.get("aa_depth"))}
 
 
-def _run(case, fault_at=None, fault_point="linear_solve"):
+def _run(case, fault_at=None, fault_point="linear_solve", fault_exc="runtime"):
     grid, o = case["grid"], case["opt"]
     a, b = wass.make_masses(grid["shape"], case["mass"])
     tags = _tags(case, a, b)
@@ -68,10 +73,15 @@ def _run(case, fault_at=None, fault_point="linear_solve"):
             w1, g = wass.make_solver(grid, o, wimg)
             cap = wass.capture_solve(w1)
             wass.watch_mobility(w1, tags)
-            st_ = wass.inject_fault(w1, fault_at, fault_point) if fault_at is not None else None
+            st_ = wass.inject_fault(w1, fault_at, fault_point, fault_exc) if fault_at is not None else None
             d, info = w1(i1, i2)
-        except wass.InjectedFault:
-            return None, tags, a, b, None, None, None  # fault hit a solve outside the iteration
+        except tuple(c for c in wass.FAULT_TYPES.values() if c) + (wass.InjectedFault,) as e:
+            if fault_at is None or "injected failure" not in str(e):
+                e.vf_tags = tags
+                raise
+            # the injected exception left the call: either it hit a step outside the iteration (the
+            # initial Darcy solve, the final pressure reconstruction) or the iteration let it escape
+            return ("escaped", type(e).__name__, st_), tags, a, b, None, None, None
         except Exception as e:  # crash of the solver: reported by the runner with these tags
             e.vf_tags = tags
             raise
@@ -114,8 +124,27 @@ def _mass_residual(ref, u, a, b, sol=None):
     return float(np.abs(res).max()), scale
 
 
+def _check_initial_solve(case, ref, cap, a, b, tags):
+    """The initial Darcy solve (unit mobility, so no degenerate weights) conserves mass to the
+    precision of the linear solver, relative to the data."""
+    first = cap.get("first_solution")
+    if first is None or not np.all(np.isfinite(first)):
+        return
+    u0 = first[: ref.num_faces]
+    f = ref.vol * (b - a).ravel("F")
+    res = float(np.abs(ref.divergence() @ u0 - f).max())
+    scale = float(np.abs(f).max() + np.abs(ref.divergence()).max() * np.abs(first).max())
+    if res > _lin_tol(case["opt"]) * max(scale, 1e-300):
+        raise Violation("initial-solve-mass-balance", f"the initial Darcy solve misses the mass balance by "
+                        f"{res:.3e} (data scale {scale:.3e}, {case['opt']['formulation']}/"
+                        f"{case['opt']['linear_solver']}, linear options {case['opt'].get('lso', 'tight')})", tags)
+
+
 def _lin_tol(o):
-    return 1e-9 if o["linear_solver"] == "direct" else 1e-7
+    if o["linear_solver"] == "direct":
+        return 1e-9
+    # library defaults: relative 1e-6 per linear solve
+    return 1e-7 if o.get("lso", "tight") == "tight" else 1e-3
 
 
 def check_mass_balance(case):
@@ -125,6 +154,7 @@ def check_mass_balance(case):
     u = sol[: ref.num_faces]
     if not np.all(np.isfinite(u)):
         return Outcome(False, _key(case), _labels(case, ("nonfinite",)), status="skipped")
+    _check_initial_solve(case, ref, cap, a, b, tags)
     res, scale = _mass_residual(ref, u, a, b, cap["linmax"])
     if res > _lin_tol(case["opt"]) * max(scale, 1e-300):
         raise Violation("mass-balance", f"max |div u - vol (m2-m1)| = {res:.3e} (scale {scale:.3e}), "
@@ -240,10 +270,21 @@ def check_status_honest(case):
 
 def check_fault_flagged(case):
     point = case.get("fault_point", "linear_solve")
-    out, tags, a, b, g, wimg, ref = _run(case, fault_at=case["fault_at"], fault_point=point)
-    tags = dict(tags, fault_at=int(case["fault_at"]), first_iteration=case["fault_at"] == 1, fault_point=point)
-    if out is None:
-        return Outcome(False, _key(case), _labels(case, ("fault-outside-iteration",)), status="skipped")
+    exc = case.get("fault_exc", "runtime")
+    out, tags, a, b, g, wimg, ref = _run(case, fault_at=case["fault_at"], fault_point=point, fault_exc=exc)
+    tags = dict(tags, fault_at=int(case["fault_at"]), first_iteration=case["fault_at"] == 1, fault_point=point,
+                fault_exc=exc)
+    if out[0] == "escaped":
+        if exc == "runtime":
+            # reference behaviour for this very call: the plain RuntimeError variant is swallowed iff the
+            # step lies inside the iteration; if so, any other Exception must be swallowed as well
+            return Outcome(False, _key(case), _labels(case, ("fault-outside-iteration",)), status="skipped")
+        ref_out = _run(case, fault_at=case["fault_at"], fault_point=point, fault_exc="runtime")[0]
+        if ref_out[0] == "escaped":
+            return Outcome(False, _key(case), _labels(case, ("fault-outside-iteration",)), status="skipped")
+        raise Violation(f"fault-escaped:{exc}", f"a {out[1]} raised by an inner step ({point}, call "
+                        f"{case['fault_at']}) left the call although the same failure raised as RuntimeError is "
+                        f"handled and flagged", tags)
     d, info, cap, w1, st_ = out
     if not st_["fired"]:
         return Outcome(False, _key(case), _labels(case, ("fault-not-reached",)), status="skipped")
@@ -264,7 +305,7 @@ def check_fault_flagged(case):
     if point == "linear_solve" and its != case["fault_at"] - 1:
         raise Violation("fault-history", f"{its} iterations recorded, failure was injected in iteration "
                         f"{case['fault_at'] - 1}", tags)
-    return Outcome(True, _key(case) + [point], _labels(case, (f"fault-{which}",)))
+    return Outcome(True, _key(case) + [point, exc], _labels(case, (f"fault-{which}", f"exc-{exc}")))
 
 
 def enum_combos(tier):
@@ -289,6 +330,22 @@ def enum_combos(tier):
                                     "aa_restart": None, "num_iter": 6, "tol": None, "L": None,
                                     "update_every": 2},
                         })
+    # the library's *default* linear tolerances on data of small and large total mass: the defaults are
+    # relative (CG) / a relative residual tolerance (AMG), so the mass balance must hold relative to the data
+    for method in ("newton", "bregman"):
+        for solver in ("amg", "cg"):
+            for amp in (-14, -24, 12):
+                for shape, vox in (([3, 4], [0.5, 0.25]), ([6], [0.3])):
+                    k += 1
+                    out.append({
+                        "grid": {"shape": shape, "vox": vox, "vk": "mixed"},
+                        "mass": {"kind": "dense", "pseed": k, "amp_exp": amp},
+                        "weight": None,
+                        "opt": {"method": method, "l1_mode": "RAVIART_THOMAS", "mobility_mode": "CELL_BASED",
+                                "formulation": "pressure", "linear_solver": solver, "aa_depth": 0,
+                                "aa_restart": None, "num_iter": 6, "tol": None, "L": None, "update_every": 2,
+                                "lso": "default"},
+                    })
     return out
 
 
@@ -301,6 +358,7 @@ def check_combo(case):
         if info["converged"]:
             raise Violation("nonfinite-converged", "non-finite flux reported as converged", tags)
         return Outcome(False, _key(case), _labels(case, ("nonfinite",)), status="skipped")
+    _check_initial_solve(case, ref, cap, a, b, tags)
     res, scale = _mass_residual(ref, u, a, b, cap["linmax"])
     if res > _lin_tol(case["opt"]) * max(scale, 1e-300):
         raise Violation("mass-balance", f"max |div u - f| = {res:.3e}", tags)
